@@ -12,7 +12,7 @@ use simkit::json::{f32_from_json, f32_to_json, Json};
 use simkit::panic::catch;
 use simkit::rng::Rng;
 use simkit::{hash_words, ObsHash};
-use simmodel::gen::{gen_knobs, gen_merged, gen_timeline, gen_vals, Knobs};
+use simmodel::gen::{gen_knobs_with, gen_merged, gen_timeline, gen_vals, Knobs};
 use simmodel::oracle::{self, PropVal};
 use simmodel::*;
 
@@ -213,7 +213,7 @@ fn dirty_vals(rng: &mut Rng, k: &Knobs) -> Vals {
 
 fn generate(rng: &mut Rng, property: &str, deep: bool) -> Scn {
     let extreme = property == "C20";
-    let knobs = gen_knobs(rng, extreme);
+    let knobs = gen_knobs_with(rng, extreme, true);
     let n_pool = rng.range(1, 3) as usize;
     let pool: Vec<ObjSpec> = (0..n_pool).map(|_| gen_obj(rng, &knobs)).collect();
     let n_slots = rng.range(1, 3) as usize;
